@@ -6,8 +6,8 @@ import (
 	"github.com/aws/aws-sdk-go-v2/aws"
 	"github.com/aws/aws-sdk-go-v2/service/dynamodb"
 	"github.com/aws/aws-sdk-go-v2/service/dynamodb/types"
-	"github.com/truora/minidyn/interpreter"
 	"github.com/truora/minidyn/internal/nd"
+	"github.com/truora/minidyn/interpreter"
 )
 
 // vC11Sections registers one section per client method on a shared client.
